@@ -459,6 +459,8 @@ static const char* judge(const Dest& d, Result r, Rounding_Dir dir, const XV& E,
 //   lcm-min      integer lcm with an operand whose absolute value is not representable
 //   sqrt-mpq     mpq sqrt with operand <= 1, or with ROUND_IGNORE / ROUND_NOT_NEEDED
 //   mpz-ldouble-neg  mpz <- long double in (-1, 0) (and mixed comparisons of the two): goes through float_mpq_to_string
+//   int-ldouble-rint  integer <- long double whose value needs more than 53 significant bits (rint() in double precision)
+//   cmp-float-nan     native integer compared with a native float NaN
 //   cmp-mp-float cmp of a native mpz/mpq with a native float NaN / infinity (SIGFPE inside GMP)
 //   int-float-edge  integer <- float conversion (and mixed comparisons) with the float just outside the integer range
 //   cmp-swap     greater_than / greater_or_equal between operands whose policies differ in has_nan / has_infinity
@@ -717,6 +719,7 @@ template <class T1, class P1, class T2, class P2> static void assign_case(vf::Ct
   // a float destination whose policy does not check NaN results takes NaN sources as a precondition
   if (xv.k == 2 && d.cat == 1 && !d.f_nan_ok) { x = one<T1, P1>(); xv = decode<T1, P1>(x); }
   if (s.cat == 1 && float_edge(d, xv) && known("int-float-edge")) { x = one<T1, P1>(); xv = decode<T1, P1>(x); }
+  if (std::is_same<T1, long double>::value && d.cat == 0 && xv.k == 0 && !float_repr(xv.v, 53, 1023, -1074) && known("int-ldouble-rint")) { x = one<T1, P1>(); xv = decode<T1, P1>(x); }
   if (std::is_same<T1, long double>::value && d.cat == 2 && xv.k == 0 && xv.v < 0 && xv.v > -1 && known("mpz-ldouble-neg")) { x = one<T1, P1>(); xv = decode<T1, P1>(x); }
   const XV E = xv; const bool repr = representable(d, E);
   int diri = (int) c.t.range(0, ND - 1); if (diri == 5 && !repr) diri = (int) c.t.range(0, 4);
@@ -762,6 +765,7 @@ template <class T1, class P1, class T2, class P2> static void compare_case(vf::C
   typedef typename Native_Checked_From_Wrapper<N1>::Policy FP1; typedef typename Native_Checked_From_Wrapper<N2>::Policy FP2;
   const bool mixedpol = (FP1::has_nan != FP2::has_nan || FP1::has_infinity != FP2::has_infinity);
   const std::string pfx = "cmp.", sfx = mixedpol ? ".mixedpol" : ".samepol";
+  if (known("cmp-float-nan") && mixedpol && ((d1.cat == 0 && d2.cat == 1 && yv.k == 2) || (d2.cat == 0 && d1.cat == 1 && xv.k == 2))) { c.tag("compare skipped (cmp-float-nan)"); return; }
   auto msg = [&](const char* f, bool got) { return [=]() { return std::string(f) + "(" + d1.tname + "/" + d1.pname + " " + show(xv) + ", " + d2.tname + "/" + d2.pname + " " + show(yv) + ") returned " + (got ? "true" : "false"); }; };
   bool g;
   arm_fpe();
